@@ -249,6 +249,8 @@ where
 
     #[inline]
     fn next(&mut self) -> Option<Result<Token, Token::Error>> {
+        #[cfg(feature = "verif_hooks")]
+        crate::verif::on_next(self.token_end);
         self.token_start = self.token_end;
 
         Token::lex(self)
@@ -324,12 +326,16 @@ where
     where
         Chunk: source::Chunk<'source>,
     {
+        #[cfg(feature = "verif_hooks")]
+        crate::verif::on_read(offset, Chunk::SIZE, self.source.len());
         self.source.read(offset)
     }
 
     /// Reset `token_start` to `token_end`.
     #[inline]
     fn trivia(&mut self) {
+        #[cfg(feature = "verif_hooks")]
+        crate::verif::on_restart(self.token_end);
         self.token_start = self.token_end;
     }
 
